@@ -35,6 +35,9 @@ theorem step_atomic (s : St) (op : Op) (h : bindOverflows s op = false) :
   | embedArray t d c r => exact (embedArray_atomic s t d c r).imp (fun h => h) (·.1)
   | embedLabel id sz => exact (embedLabel_atomic s id sz).imp (fun h => h) (·.1)
   | embedLabelDelta id b sz => exact (embedLabelDelta_atomic s id b sz).imp (fun h => h) (·.1)
+  | embedConstPool id a d =>
+    have h' : (embedConstPool s id a d).code ≠ Err.invalidDisplacement := by simpa [bindOverflows, step] using h
+    exact (embedConstPool_atomic s id a d h').imp (fun h => h) (·.1)
   | newSection n a =>
     rcases newSection_code s n a with h1 | h1
     · exact Or.inl h1
@@ -94,6 +97,9 @@ theorem failure_is_reported (s : St) (op : Op) (hk : bindOverflows s op = false)
     case embedLabelDelta id b sz =>
       revert hr hc; simp only [embedLabelDelta]; repeat' split
       all_goals simp [done, report, Err.ok, Err.invalidLabel, Err.invalidOperandSize]
+    case embedConstPool id a d =>
+      revert hr hc; simp only [embedConstPool]; repeat' split
+      all_goals simp_all [done, report, Err.ok, Err.invalidLabel, Err.labelAlreadyBound]
     case newSection n a => exact absurd rfl (hns n a)
     case «section» i =>
       revert hr hc; simp only [switchSection]; repeat' split
@@ -113,6 +119,9 @@ theorem failure_is_reported (s : St) (op : Op) (hk : bindOverflows s op = false)
     | embedArray t d c r => exact ((embedArray_atomic s t d c r).resolve_left hc).2
     | embedLabel id sz => exact ((embedLabel_atomic s id sz).resolve_left hc).2
     | embedLabelDelta id b sz => exact ((embedLabelDelta_atomic s id b sz).resolve_left hc).2
+    | embedConstPool id a d =>
+      have h' : (embedConstPool s id a d).code ≠ Err.invalidDisplacement := by simpa [bindOverflows, step] using hk
+      exact ((embedConstPool_atomic s id a d h').resolve_left hc).2
     | newSection n a => exact absurd rfl (hns n a)
     | «section» i => exact ((switchSection_atomic s i).resolve_left hc).2
     | emit pre refs o => exact ((emit_atomic s pre refs o).resolve_left hc).2
@@ -225,6 +234,15 @@ theorem handler_stable (t : St) (op : Op) : (step t op).st.handler = t.handler :
                            all_goals rfl
   case embedLabelDelta id b sz => simp only [embedLabelDelta]; repeat' split
                                   all_goals rfl
+  case embedConstPool id a d =>
+    have ha : (align t 1 a).st.handler = t.handler := by
+      simp only [align]; repeat' split
+      all_goals rfl
+    have hb : ∀ u : St, (Emitter.bind u id).st.handler = u.handler := by
+      intro u; simp only [Emitter.bind]; repeat' split
+      all_goals rfl
+    simp only [embedConstPool]; repeat' split
+    all_goals first | rfl | exact ha | exact (hb _).trans ha
   case newSection n a => simp only [newSection]; repeat' split
                          all_goals rfl
   case «section» i => simp only [switchSection]; repeat' split
@@ -373,6 +391,11 @@ example : run {} demoOps = run {} (accepted {} demoOps) := fresh_after_failure_p
 example : handled {} demoOps = [26, 12, 12, 2, 12, 14] := by decide +kernel
 /-- the hypothesis of the partial theorems is not vacuous the other way either: the witness history is excluded -/
 example : noBindOverflow witnessState [.bind 0] = false := by decide +kernel
+/-- `embed_const_pool`: a bound label is refused before anything is appended; an unbound one aligns, binds and embeds -/
+example : (step { secs := [{ data := [1] }], labels := [{ bound := some (0, 0) }, {}] } (.embedConstPool 0 8 [7, 7])).code = Err.labelAlreadyBound ∧
+    ((step { secs := [{ data := [1] }], labels := [{ bound := some (0, 0) }, {}] } (.embedConstPool 1 8 [7, 7])).st.secs.map (·.data.length)) = [10] ∧
+    ((step { secs := [{ data := [1] }], labels := [{ bound := some (0, 0) }, {}] } (.embedConstPool 1 8 [7, 7])).st.labels.map (·.bound)) =
+      [some (0, 0), some (0, 8)] := by decide +kernel
 /-- valid arguments are accepted (the model does not reject everything) -/
 example : (step {} (.align 0 16)).code = 0 ∧ (step {} (.embed [1, 2])).code = 0 ∧ (step {} (.newSection 5 8)).code = 0 ∧
     (step {} (.newNamedLabel [0x61] 2 kInvalidId)).code = 0 := by decide
